@@ -26,6 +26,17 @@ ASSUMPTIONS = [
     "ceil(size / hop) is computed by the code in floating point; modelled as exact integer ceiling",
 ]
 
+MANIFEST = {
+    "text": "Lean 4 theorems about an executable, code-shaped model of overlap_add.list (window resolution, normalisation gain, "
+            "slice-assignment loop, flush, size checks) and of the stft wrapper (keyword merge and routing, blk_gen, run), for all "
+            "block counts / sizes / hops / windows / keyword dictionaries; tied to /repo by a differential run (impl vs model vs spec) "
+            "on every check",
+    "note": "overlap_add.numpy cannot be run here (no numpy) and is not tied; Python slice assignment, map() consumption and the "
+            "generator protocol are modelled, not verified; floats injected by the impl (mem=[0.]*size, 1/ceil) are compared exactly "
+            "on dyadic inputs and with relative tolerance 1e-9 otherwise; known defect D7 recorded in known_findings/C09.json",
+    "technique": "Lean 4 machine-checked proof over an executable model + differential correspondence with spies in three calling styles",
+}
+
 TOL = F(1, 10 ** 9)
 _LAST = {}     # id(case) -> last driver payload (read by tally)
 
